@@ -13,6 +13,7 @@
 // parameters are appended to the augmented op so that the model evaluates predict / split / scale / merge on them.
 #include "common.h"
 #include <limits>
+#include <nano/core/numeric.h>
 #include <nano/dataset.h>
 #include <nano/dataset/iterator.h>
 #include <nano/generator/elemwise_identity.h>
@@ -430,6 +431,7 @@ std::string op_wl(toks_t& toks, std::string& aug)
     out_t out;
     out << "ok"
         << "fit";
+    aug += " | " + vh::f2h(epsilon1<scalar_t>());
 
     auto       wl    = make_wlearner(sp);
     const auto score = wl->fit(dataset, samples, gradients);
